@@ -114,6 +114,13 @@ impl crate::platform::Arch for ElfAArch64 {
     fn get_property_class(property_type: u32) -> Option<PropertyClass> {
         match property_type {
             GNU_PROPERTY_AARCH64_FEATURE_1_AND => Some(PropertyClass::And),
+            // The generic ranges apply to all architectures, e.g. GNU_PROPERTY_1_NEEDED.
+            object::elf::GNU_PROPERTY_UINT32_AND_LO..=object::elf::GNU_PROPERTY_UINT32_AND_HI => {
+                Some(PropertyClass::And)
+            }
+            object::elf::GNU_PROPERTY_UINT32_OR_LO..=object::elf::GNU_PROPERTY_UINT32_OR_HI => {
+                Some(PropertyClass::Or)
+            }
             _ => None,
         }
     }
